@@ -79,7 +79,7 @@ pub fn run_enum(world: &dyn World, prop: &'static str, cfg: &Cfg, params: &EnumP
                 let mut ops = path(nodes_ref, n);
                 for op in &alpha {
                     ops.push(*op);
-                    let mut run = Run::new();
+                    let mut run = Run::for_prop(prop);
                     run.want_fp = true;
                     world.run(cfg, &ops, &mut run);
                     ls.account(world, prop, cfg, &ops, &run);
